@@ -129,6 +129,12 @@ pub async fn drain_async<R: AsyncRead + Unpin>(r: &mut R, sizes: &[u32], cap: us
     d
 }
 
+thread_local! {
+    /// read the payload of parse() through the *other* interface (blocking parse -> AsyncRead via AllowStdIo on the
+    /// scripted executor; async parse -> blocking Read via block_on). Set by the caller around run_parser_opt.
+    pub static CROSS_PAYLOAD: std::cell::Cell<bool> = const { std::cell::Cell::new(false) };
+}
+
 pub struct ParseRun {
     pub outcome: Outcome,
     /// source counter at the instant parse / parse_parts returned
@@ -203,7 +209,25 @@ pub fn run_parser_opt(
                 Ok(Ok(mut resp)) => {
                     out.consumed_at_return = src.handed_out();
                     out.outcome = Outcome::Ok(canon(resp.header(), resp.attributes()));
-                    if read_payload {
+                    if read_payload && CROSS_PAYLOAD.with(|c| c.get()) {
+                        // blocking-parsed payload consumed through the AsyncRead side
+                        let core2 = core.clone();
+                        let sizes2 = sizes.to_vec();
+                        match guarded(move || {
+                            let fut = async move { drain_async(resp.payload_mut(), &sizes2, cap).await };
+                            run_scripted(&core2, fut, max_polls.max(64) + 4 * cap as u64)
+                        }) {
+                            Ok((Ok(d), st)) => {
+                                out.exec = st;
+                                out.payload = Some(d)
+                            }
+                            Ok((Err(v), st)) => {
+                                out.exec = st;
+                                out.exec_violation = Some(v)
+                            }
+                            Err(p) => out.outcome = Outcome::Panic(format!("payload read: {p}")),
+                        }
+                    } else if read_payload {
                         match guarded(|| drain_sync(resp.payload_mut(), sizes, cap)) {
                             Ok(d) => out.payload = Some(d),
                             Err(p) => out.outcome = Outcome::Panic(format!("payload read: {p}")),
@@ -246,6 +270,10 @@ pub fn run_parser_opt(
             let rd = src.async_reader();
             let src2 = src.clone();
             let sizes = sizes.to_vec();
+            let cross = CROSS_PAYLOAD.with(|c| c.get());
+            let sizes_out = sizes.clone();
+            let kept: std::rc::Rc<std::cell::RefCell<Option<ipp::request::IppRequestResponse>>> = Default::default();
+            let kept2 = kept.clone();
             let fut = async move {
                 let r = AsyncIppParser::new(rd).parse().await;
                 let consumed = src2.handed_out();
@@ -253,7 +281,10 @@ pub fn run_parser_opt(
                     Err(e) => (from_err(&e), consumed, None),
                     Ok(mut resp) => {
                         let c = canon(resp.header(), resp.attributes());
-                        let d = if read_payload { Some(drain_async(resp.payload_mut(), &sizes, cap).await) } else { None };
+                        let d = if read_payload && !cross { Some(drain_async(resp.payload_mut(), &sizes, cap).await) } else { None };
+                        if read_payload && cross {
+                            *kept2.borrow_mut() = Some(resp);
+                        }
                         (Outcome::Ok(c), consumed, d)
                     }
                 }
@@ -275,6 +306,13 @@ pub fn run_parser_opt(
                     out.outcome = o;
                     out.consumed_at_return = consumed;
                     out.payload = d;
+                    // async-parsed payload consumed through the blocking Read side (real block_on bridge)
+                    if let Some(mut resp) = kept.borrow_mut().take() {
+                        match guarded(|| drain_sync(resp.payload_mut(), &sizes_out, cap)) {
+                            Ok(d) => out.payload = Some(d),
+                            Err(p) => out.outcome = Outcome::Panic(format!("payload read: {p}")),
+                        }
+                    }
                 }
             }
         }
